@@ -2,6 +2,7 @@ package world
 
 import (
 	"fmt"
+	"github.com/go-kid/ioc/component_definition"
 	"reflect"
 	"sort"
 )
@@ -226,6 +227,36 @@ func (r *Run) CheckIdentity(pop []Comp) []string {
 				break
 			}
 		}
+		// a listing (Factory.GetComponents) that selects this one definition returns the published object too,
+		// the first time and every later time
+		for round := 1; round <= 2; round++ {
+			var listed []any
+			var lerr error
+			nm := name
+			r.Guard(func() {
+				listed, lerr = r.App.GetComponents(func(m *component_definition.Meta) bool { return m.Name() == nm })
+			})
+			if r.Panic != nil || r.Diverge != nil {
+				out = append(out, fmt.Sprintf("listing of %q after the start: %s", name, r.OutcomeDetail()))
+				return out
+			}
+			if lerr != nil {
+				out = append(out, fmt.Sprintf("listing (GetComponents) of the published component %q failed: %v", name, lerr))
+				break
+			}
+			if len(listed) != 1 || listed[0] != got {
+				out = append(out, fmt.Sprintf("listing #%d (GetComponents) of component %q returns %d object(s) %v, GetComponentByName returns %p (%T)", round, name, len(listed), ptrs(listed), got, got))
+				break
+			}
+		}
+	}
+	return out
+}
+
+func ptrs(l []any) []string {
+	var out []string
+	for _, o := range l {
+		out = append(out, fmt.Sprintf("%p(%T)", o, o))
 	}
 	return out
 }
